@@ -11,7 +11,7 @@ SEED = {0: 'fresh', 1: 'round=MAX-1', 2: 'round=MAX'}
 # tier -> (state target of the optimised pass, state target of the ASan pass, depth bound, hard state cap)
 # A job completes whole BFS levels and starts no further level once its state count reached the target,
 # so the explored depth depends only on (job, target) - never on machine speed.
-TIERS = {'quick': (100000, 3000, 8, 4000000), 'thorough': (1000000, 40000, 12, 12000000)}
+TIERS = {'quick': (100000, 3000, 8, 4000000), 'thorough': (600000, 40000, 12, 12000000)}
 
 
 def jobs_for(tier):
@@ -26,17 +26,21 @@ def jobs_for(tier):
                         j = '%d,%d,%d,%d,%d,%d,0,1' % (size, mn, style, seed, nr, depth)
                         out.append(('fast', j, t_fast))
                         out.append(('asan', j, t_asan))
+            # aborted writes (r_buf_wbuf_get without a commit) added to the writer alphabet
+            for style in (0, 1):
+                for seed in ((0, 1) if tier == 'thorough' else (0,)):
+                    out.append(('fast', '%d,%d,%d,%d,1,%d,0,2' % (size, mn, style, seed, depth), t_fast))
             if tier == 'thorough':
-                # every block length min..size, both commit calls mixed in one history
+                # every block length min..size, both commit calls mixed in one history, aborted writes
                 for seed in (0, 1):
-                    out.append(('fast', '%d,%d,2,%d,1,%d,1,1' % (size, mn, seed, depth), t_fast))
+                    out.append(('fast', '%d,%d,2,%d,1,%d,1,2' % (size, mn, seed, depth), t_fast))
     return out
 
 
 def job_name(kind, job):
     f = job.split(',')
-    return '%s:ring%s/min%s/%s/%s/%sr/%s' % (kind, f[0], f[1], STYLE[int(f[2])], SEED[int(f[3])], f[4],
-                                             'k=all' if f[6] == '1' else 'k=4')
+    return '%s:ring%s/min%s/%s/%s/%sr/%s%s' % (kind, f[0], f[1], STYLE[int(f[2])], SEED[int(f[3])], f[4],
+                                               'k=all' if f[6] == '1' else 'k=4', '+abort' if f[7] == '2' else '')
 
 
 def build():
@@ -101,7 +105,8 @@ def run(tier):
         'breadth-first search over snapshots of the real r_buf_t: rings {8,12,16} x min_block {2,3,4} x commit call '
         '{r_buf_wbuf_set, r_buf_wbuf_set2} x start state {fresh, one full cycle with the round counter moved to '
         'SIZE_MAX-1 / SIZE_MAX} x {1,2} readers; from every state every writer step W(request, length, offset) with '
-        'length in {min, min+1, 2*min, size}, offset in {0,1}, request in {length+offset, size} and every reader step '
+        'length in {min, min+1, 2*min, size}, offset in {0,1}, request in {length+offset, size} (extra jobs: aborted '
+        'writes = get without commit; thorough: every length min..size with both commit calls mixed) and every reader step '
         'R_i(max in {1,3,2^30}, advance in {all,1,0}); whole BFS levels until the state count reaches the target '
         '(%d fast / %d ASan per job) or depth %d; every new state is observed with avail_size, check_fast, calc_size, '
         'rpos_init(0,size/2,size); a transition is non-trivial when bytes were committed / delivered / consumed'
@@ -132,12 +137,12 @@ def run(tier):
     depths = sorted(set(v.get('depth_completed', 0) for v in per_job.values()))
     rep.extra['depth_completed_min_max'] = [depths[0], depths[-1]] if depths else []
     rep.extra['depth_completed_per_job'] = {k: v.get('depth_completed') for k, v in sorted(per_job.items()) if k.startswith('fast')}
-    for k in ('ring_wraps', 'round_counter_wraps', 'offset_commits', 'deliveries', 'drop_reports', 'drop_exact',
+    for k in ('ring_wraps', 'round_counter_wraps', 'offset_commits', 'aborted_writes', 'deliveries', 'drop_reports', 'drop_exact',
               'drop_over', 'drop_under', 'drop_unset', 'drop_without_resync', 'skips_with_report',
               'data_size_ret_ne_regions', 'delivered_more_than_asked', 'set2_rpos_not_at_block',
               'get_returned_too_little', 'pruned_after_violation', 'calc_size_skipped_unsafe_cursor'):
         rep.extra['sum_' + k] = tot(k)
-    if not (rep.extra['ring_wraps'] if 'ring_wraps' in rep.extra else rep.extra['sum_ring_wraps']):
+    if not rep.extra['sum_ring_wraps']:
         rep.harness_errors.append('vacuous: no ring wrap was explored')
     if not rep.extra['sum_round_counter_wraps']:
         rep.harness_errors.append('vacuous: the round counter never wrapped')
